@@ -10,7 +10,7 @@ export GOFLAGS=-mod=mod GOPROXY=off GOSUMDB=off
 cd $wt && git checkout -q --detach $(git -C /repo rev-parse HEAD) && git reset -q --hard
 git apply "$patch" 2>/tmp/apply.err || git apply --3way "$patch" 2>>/tmp/apply.err || { echo "PATCH DOES NOT APPLY"; cat /tmp/apply.err; git reset -q --hard; exit 3; }
 go build ./... || { echo "MUTANT DOES NOT BUILD"; git reset -q --hard; exit 3; }
-files=$(git diff --name-only; git ls-files --others --exclude-standard | grep '\.go$' | grep -v '^mutants/')
+files=$(git diff --name-only HEAD; git ls-files --others --exclude-standard | grep '\.go$' | grep -v '^mutants/')
 copied=""
 cleanup() { for f in $copied; do rm -f "/verif/harness/$f"; done; cd $wt && git reset -q --hard; git clean -fdq; }
 trap cleanup EXIT INT TERM
